@@ -158,6 +158,7 @@ type MsgSpec struct {
 	Attach   []FileSpec  `json:"attach,omitempty"`
 	SMIME    string      `json:"smime,omitempty"` // "" | rsa | ecdsa
 	Headers  [][2]string `json:"headers,omitempty"`
+	Preform  [][2]string `json:"preform,omitempty"` // preformatted generic headers
 	Boundary string      `json:"boundary,omitempty"`
 	NoMsg    bool        `json:"noMsg,omitempty"` // a nil *Msg in the batch
 }
@@ -426,6 +427,9 @@ func BuildMsg(s MsgSpec, o BuildOpts) *Built {
 	}
 	for _, h := range s.Headers {
 		m.SetGenHeader(mail.Header(h[0]), h[1])
+	}
+	for _, h := range s.Preform {
+		m.SetGenHeaderPreformatted(mail.Header(h[0]), h[1])
 	}
 	for i, p := range s.Parts {
 		pr := &Producer{Spec: p.Content}
